@@ -143,8 +143,9 @@ def compile_props(prop):
             cur = []
             blocks.append(cur)
         elif cur is not None:
-            m = re.match(r'^([A-Za-z0-9_.\']+)\s*:', line)
-            if m:
+            # an axiom is printed as `name : type` or, for long types, `name` alone with the type on the following indented lines
+            m = re.match(r'^([A-Za-z_][A-Za-z0-9_.\']*)\s*(:|$)', line)
+            if m and m.group(1) not in ('Warning', 'File'):
                 cur.append(m.group(1))
     pa = re.findall(r'Print Assumptions\s+([A-Za-z0-9_.\']+)', text)
     thms = []
